@@ -13,7 +13,7 @@ def getBits (k from_ to : Nat) : Nat := (k >>> from_) % 2 ^ (to + 1 - from_)
 /-- bn_rec_win: fixed windows of width w, least significant first; none = ERR_NO_BUFFER -/
 def recWin (cap : Nat) (k w : Nat) : Option (List Int) :=
   let l := bitLen k
-  if cap < (l + w - 1) / w then none
+  if cap < max ((l + w - 1) / w) 1 then none     -- the zero scalar still needs one entry (the single window 0)
   else
     -- for (i = 0; i < l - w; i += w) emit bits [i, i+w-1]; then the top window [i, l-1]
     let cnt := if l ≤ w then 0 else (l - w + w - 1) / w
